@@ -110,10 +110,12 @@ func transportScenario(prop string, bound int) *qx.Scenario {
 				o.Violation, o.Sig = msg, sig
 			}
 		}
-		// The partition log, in append order, without what the broker appended from a request whose connection
-		// the client had already closed: a client that timed out and gave the attempt up cannot keep a slow
-		// broker from applying it later, and neither property asks that of it. (A request the client never
-		// aborted - its connection still open - counts in full.)
+		// The partition log, in append order, without what the broker appended more than the client's timeout
+		// after it had received the request in full: by then the client has given the attempt up (and said so),
+		// and no client can keep a slow broker from applying later what it already holds. A request that
+		// *reaches* the broker late because the client went on writing it past its deadline is not exempt.
+		const clientTimeout = 2 * time.Second
+		late := func(e *fk.Entry) bool { return e.AnsweredAt-e.At >= clientTimeout }
 		var applied []*fk.Entry
 		for _, e := range c.Journal {
 			if e.Key == protocol.Produce && e.Applied {
@@ -125,7 +127,7 @@ func transportScenario(prop string, bound int) *qx.Scenario {
 		for _, e := range applied {
 			for _, b := range e.Batches {
 				for _, r := range b.Recs {
-					if e.ClientGone {
+					if late(e) {
 						abandoned = append(abandoned, string(r.Value))
 					} else {
 						log = append(log, string(r.Value))
@@ -135,7 +137,7 @@ func transportScenario(prop string, bound int) *qx.Scenario {
 		}
 		acked := map[string]bool{}
 		for _, e := range c.Journal {
-			if e.Key == protocol.Produce && e.Applied && e.Answer == "ok" && !e.ClientGone {
+			if e.Key == protocol.Produce && e.Applied && e.Answer == "ok" && !late(e) {
 				for _, b := range e.Batches {
 					for _, r := range b.Recs {
 						acked[string(r.Value)] = true
